@@ -173,16 +173,17 @@ Section RoundTrip.
   Variable le_encode : leparams -> bool -> list N -> list N.
   Variable le_decode : leparams -> N -> list N -> option (list N).
   Variable meta_ok : minfo -> bool.
-  Variable le_ok : leparams -> bool.
+  Variable le_ok : leparams -> N -> bool.   (* parameters and plaintext length *)
 
   Hypothesis seal_len : forall n p, length (seal n p) = (length p + tagLen)%nat.
   Hypothesis open_seal : forall n p, open n (seal n p) = Some p.
   Hypothesis marshal_len : forall m, meta_ok m = true -> length (marshal_meta m) = metaLen.
   Hypothesis parse_marshal : forall m, meta_ok m = true -> parse_meta (marshal_meta m) = Some m.
-  Hypothesis le_encode_len : forall lp pb ct, le_ok lp = true ->
-    length (le_encode lp pb ct) = N.to_nat (le_len lp (lenN ct)).
-  Hypothesis le_round : forall lp pb ct, le_ok lp = true ->
-    le_decode lp (lenN ct) (le_encode lp pb ct) = Some ct.
+  (* the low entropy codec is only ever applied to the ciphertext body of a sealed payload *)
+  Hypothesis le_encode_len : forall lp pb n p, le_ok lp (lenN p) = true ->
+    length (le_encode lp pb (firstn (length p) (seal n p))) = N.to_nat (le_len lp (lenN p)).
+  Hypothesis le_round : forall lp pb n p, le_ok lp (lenN p) = true ->
+    le_decode lp (lenN p) (le_encode lp pb (firstn (length p) (seal n p))) = Some (firstn (length p) (seal n p)).
 
   Notation parse1 := (parse1 open parse_meta le_decode).
   Notation drain := (drain open parse_meta le_decode).
@@ -198,7 +199,8 @@ Section RoundTrip.
   Definition seg_ok (s : segment) : Prop :=
     meta_ok (fill_meta s) = true /\
     ((mi_plen (fill_meta s) =? 0) = is_nil (s_payload s)) /\
-    (is_le (mi_proto (s_meta s)) = true -> le_ok (mi_le (s_meta s)) = true).
+    (is_le (mi_proto (s_meta s)) = true -> is_nil (s_payload s) = false ->
+       le_ok (mi_le (s_meta s)) (lenN (s_payload s)) = true).
 
   Lemma fill_proto (s : segment) : mi_proto (fill_meta s) = mi_proto (s_meta s). Proof. reflexivity. Qed.
   Lemma fill_le (s : segment) : mi_le (fill_meta s) = mi_le (s_meta s). Proof. reflexivity. Qed.
@@ -244,22 +246,23 @@ Section RoundTrip.
       assert (Hct : length (firstn (length pl) box) = length pl) by (rewrite firstn_length; lia).
       change (mi_proto mi) with (mi_proto (s_meta s)).
       destruct (is_le (mi_proto (s_meta s))) eqn:Ele.
-      + specialize (Hle eq_refl).
+      + specialize (Hle eq_refl eq_refl).
         change (mi_le mi) with (mi_le (s_meta s)).
         set (lp := mi_le (s_meta s)) in *.
         set (ct := firstn (length pl) box) in *.
         set (tg := skipn (length pl) box).
         set (enc := le_encode lp (s_pb s) ct).
         assert (Hpl : N.to_nat (mi_plen mi) = length enc).
-        { unfold mi. cbn [TcpStream.fill_meta mi_plen]. rewrite Ele. fold lp. unfold enc.
-          rewrite (le_encode_len _ _ _ Hle). unfold lenN. rewrite Hct. reflexivity. }
+        { unfold mi. cbn [TcpStream.fill_meta mi_plen]. rewrite Ele. symmetry.
+          apply (le_encode_len lp (s_pb s) (nonce_inc n) pl Hle). }
         assert (Hbody : (N.to_nat (mi_plen mi) + tagLen)%nat = length (enc ++ tg)).
         { rewrite app_length. unfold tg. rewrite skipn_length, <- Hpl. lia. }
         rewrite Hbody, take_app_exact. cbv beta iota.
         rewrite Hpl, (firstn_app_exact _ enc tg eq_refl), (skipn_app_exact _ enc tg eq_refl).
-        assert (He : mi_elen mi = lenN ct).
-        { unfold mi. cbn [TcpStream.fill_meta mi_elen]. rewrite Ele. unfold lenN. rewrite Hct. reflexivity. }
-        rewrite He. unfold enc. rewrite (le_round _ _ _ Hle).
+        assert (He : mi_elen mi = lenN pl).
+        { unfold mi. cbn [TcpStream.fill_meta mi_elen]. rewrite Ele. reflexivity. }
+        assert (R : le_decode lp (lenN pl) enc = Some ct) by (apply (le_round lp (s_pb s) (nonce_inc n) pl Hle)).
+        rewrite He, R.
         unfold ct, tg. rewrite firstn_skipn. unfold box. rewrite open_seal.
         rewrite Hsuf, take_app_exact. reflexivity.
       + assert (Hpl : (N.to_nat (mi_plen mi) + tagLen)%nat = length box).
@@ -768,16 +771,17 @@ Section Integrity.
   Variable le_encode : leparams -> bool -> list N -> list N.
   Variable le_decode : leparams -> N -> list N -> option (list N).
   Variable meta_ok : minfo -> bool.
-  Variable le_ok : leparams -> bool.
+  Variable le_ok : leparams -> N -> bool.   (* parameters and plaintext length *)
 
   Hypothesis seal_len : forall n p, length (seal n p) = (length p + tagLen)%nat.
   Hypothesis open_seal : forall n p, open n (seal n p) = Some p.
   Hypothesis marshal_len : forall m, meta_ok m = true -> length (marshal_meta m) = metaLen.
   Hypothesis parse_marshal : forall m, meta_ok m = true -> parse_meta (marshal_meta m) = Some m.
-  Hypothesis le_encode_len : forall lp pb ct, le_ok lp = true ->
-    length (le_encode lp pb ct) = N.to_nat (le_len lp (lenN ct)).
-  Hypothesis le_round : forall lp pb ct, le_ok lp = true ->
-    le_decode lp (lenN ct) (le_encode lp pb ct) = Some ct.
+  (* the low entropy codec is only ever applied to the ciphertext body of a sealed payload *)
+  Hypothesis le_encode_len : forall lp pb n p, le_ok lp (lenN p) = true ->
+    length (le_encode lp pb (firstn (length p) (seal n p))) = N.to_nat (le_len lp (lenN p)).
+  Hypothesis le_round : forall lp pb n p, le_ok lp (lenN p) = true ->
+    le_decode lp (lenN p) (le_encode lp pb (firstn (length p) (seal n p))) = Some (firstn (length p) (seal n p)).
 
   Notation feed_all := (feed_all open parse_meta le_decode).
   Notation serialize := (serialize seal marshal_meta le_len le_encode).
@@ -854,7 +858,7 @@ Section Tamper.
   Variable le_len : leparams -> N -> N.
   Variable le_decode : leparams -> N -> list N -> option (list N).
   Variable meta_ok : minfo -> bool.
-  Variable le_ok : leparams -> bool.
+  Variable le_ok : leparams -> N -> bool.   (* parameters and plaintext length *)
 
   Hypothesis parse_marshal : forall m, meta_ok m = true -> parse_meta (marshal_meta m) = Some m.
 
@@ -1011,10 +1015,19 @@ Lemma t_marshal_len : forall m, t_ok m = true -> length (t_marshal m) = metaLen.
 Proof. intros. reflexivity. Qed.
 Lemma t_parse_marshal : forall m, t_ok m = true -> t_parse (t_marshal m) = Some m.
 Proof. intros [] _. reflexivity. Qed.
-Lemma t_le_encode_len : forall lp pb ct, t_ok lp = true -> length (t_le_encode lp pb ct) = N.to_nat (t_le_len lp (lenN ct)).
-Proof. intros. unfold t_le_encode, t_le_len, lenN. rewrite app_length. lia. Qed.
-Lemma t_le_round : forall lp pb ct, t_ok lp = true -> t_le_decode lp (lenN ct) (t_le_encode lp pb ct) = Some ct.
-Proof. intros. unfold t_le_decode, t_le_encode. rewrite lenN_nat, firstn_app_exact; reflexivity. Qed.
+Definition t_okle (lp : leparams) (n : N) : bool := true.
+Lemma t_le_encode_len : forall lp pb n p, t_okle lp (lenN p) = true ->
+  length (t_le_encode lp pb (firstn (length p) (t_seal n p))) = N.to_nat (t_le_len lp (lenN p)).
+Proof.
+  intros. unfold t_le_encode, t_le_len, t_seal, lenN. rewrite (firstn_app_exact (length p) p _ eq_refl).
+  rewrite app_length. lia.
+Qed.
+Lemma t_le_round : forall lp pb n p, t_okle lp (lenN p) = true ->
+  t_le_decode lp (lenN p) (t_le_encode lp pb (firstn (length p) (t_seal n p))) = Some (firstn (length p) (t_seal n p)).
+Proof.
+  intros. unfold t_le_decode, t_le_encode, t_seal. rewrite (firstn_app_exact (length p) p _ eq_refl).
+  rewrite lenN_nat, (firstn_app_exact (length p) p p eq_refl). reflexivity.
+Qed.
 
 Definition mk_seg (proto sid seq frag : N) (payload pad1 pad2 : list N) : segment :=
   mkSeg (mkMinfo proto 1 20964900 sid seq 0 0 0 0 256 frag 0 252645135 0 3) payload pad1 pad2 true.
@@ -1025,14 +1038,14 @@ Definition ex_segs : list segment :=
   [mk_seg pOpenReq 7 0 0 [1; 2; 3] [9; 9] [8]; mk_seg pDataC2S 7 1 0 [4; 5] [1; 1; 1] [];
    mk_seg pDataC2SLE 7 2 0 [6; 7; 8; 9] [] [5; 5]; mk_seg pCloseReq 7 3 0 [] [] [0]].
 
-Lemma ex_segs_ok : Forall (seg_ok t_le_len t_ok t_ok) ex_segs.
+Lemma ex_segs_ok : Forall (seg_ok t_le_len t_ok t_okle) ex_segs.
 Proof. repeat constructor. Qed.
 
 Example ex_feed_serialize :
   feed t_open t_parse t_le_decode r_init (serialize t_seal t_marshal t_le_len t_le_encode false ex_n0 ex_segs) =
   (map (deliver t_le_len) ex_segs, mkR [] (ser_next t_seal t_marshal t_le_len t_le_encode false ex_n0 ex_segs) false).
 Proof.
-  apply (feed_serialize t_seal t_open t_marshal t_parse t_le_len t_le_encode t_le_decode t_ok t_ok
+  apply (feed_serialize t_seal t_open t_marshal t_parse t_le_len t_le_encode t_le_decode t_ok t_okle
            t_seal_len t_open_seal t_marshal_len t_parse_marshal t_le_encode_len t_le_round ex_segs ex_n0 ex_segs_ok).
   reflexivity.
 Qed.
@@ -1072,7 +1085,5 @@ Example ex_frag_sizes : map (fun m => N.of_nat (frag_size m)) [0; 1; 2; 3; 4] = 
 Proof. vm_compute. reflexivity. Qed.
 
 
-(* Not included (ran out of time; see the report): Example instances that apply plan_concat, tcp_integrity and
-   tamper_prefix to a concrete family of sessions.  Their premises are exhibited separately above: the six
-   codec premises hold for the toy instance (t_seal_len ... t_le_round), seg_ok holds for ex_segs (ex_segs_ok),
-   wevent_ok / mode_ok 0 is maxPDU_pos. *)
+(* Further Example instances (plan_concat, tcp_integrity, tamper_prefix applied; fragment size boundaries):
+   proofs/TcpStreamExamples.v.  Concrete codecs: proofs/TcpStreamInst.v. *)
